@@ -23,10 +23,14 @@ class RealBudget:
         self.clock = vtime.VClock()
         with vtime.use_clock(self.clock):
             self.b = Budget(max_retries=cfg["max"], window_s=cfg["W"] * vtime.TICK)
+            # a second, busy budget in the same process: instances share nothing
+            self.other = Budget(max_retries=3, window_s=1000.0)
 
     def do(self, ev: dict):
         self.clock.set_now(ev["t"])
         with vtime.use_clock(self.clock):
+            self.other.consume(1)
+            self.other.remaining()
             try:
                 if ev["op"] == "consume":
                     r = self.b.consume(ev["cost"])
